@@ -38,6 +38,21 @@ const portDir = "/tmp/verif-ports"
 // exclusive lock file naming the owning pid; it stays claimed for the life of the process and
 // is never handed out twice. Locks of dead processes are reclaimed.
 func FreePort() int {
+	// a port this process reserved earlier and no longer uses
+	for {
+		portMu.Lock()
+		if len(sparePorts) == 0 {
+			portMu.Unlock()
+			break
+		}
+		port := sparePorts[0]
+		sparePorts = sparePorts[1:]
+		portMu.Unlock()
+		if l, err := net.Listen("tcp", fmt.Sprintf("127.0.0.1:%d", port)); err == nil {
+			l.Close()
+			return port
+		}
+	}
 	_ = os.MkdirAll(portDir, 0o777)
 	pid := os.Getpid()
 	for i := 0; i < 40000; i++ {
@@ -70,6 +85,43 @@ func FreePort() int {
 		return port
 	}
 	panic("no free port")
+}
+
+// ReleasePort marks one reserved port as no longer in use (its server has been closed for good).
+// The port stays reserved for this process and is handed out again by a later FreePort call: it
+// is never passed to another process while this one lives, so something in this process that
+// still remembers the old address (a scheduled health check, say) cannot reach a foreign server.
+func ReleasePort(port int) {
+	portMu.Lock()
+	defer portMu.Unlock()
+	for _, p := range ownPorts {
+		if p == port {
+			sparePorts = append(sparePorts, port)
+			return
+		}
+	}
+}
+
+var sparePorts []int
+
+var deadPorts []int
+
+// DeadPort returns the i-th of this process's reserved ports at which nothing ever listens
+// (endpoints that must refuse connections). They are reused from case to case.
+func DeadPort(i int) int {
+	portMu.Lock()
+	n := len(deadPorts)
+	portMu.Unlock()
+	for n <= i {
+		p := FreePort()
+		portMu.Lock()
+		deadPorts = append(deadPorts, p)
+		n = len(deadPorts)
+		portMu.Unlock()
+	}
+	portMu.Lock()
+	defer portMu.Unlock()
+	return deadPorts[i]
 }
 
 // ReleasePorts drops this process's port reservations (called when a check process ends).
